@@ -241,13 +241,7 @@ func runC05(c *Ctx) {
 			}
 			var src ssa.Value
 			if h := stores["Handler"]; h != nil {
-				derivesFrom(h, func(v ssa.Value) bool {
-					if _, isP := v.Type().(*types.Pointer); isP && typeIs(v.Type(), astPath, "Route") {
-						src = v
-						return true
-					}
-					return false
-				})
+				src, _ = handlerSourceRoute(c, "C05-R3", fn, h)
 			}
 			if src == nil {
 				return
